@@ -1,5 +1,5 @@
 (* C10 - map validation does not depend on entry order; no physical pair is collapsed (over Sem.v). *)
-From Cddl Require Import Sem.Syntax Sem.Validator Sem.Sem Sem.Perm.
+From Cddl Require Import Sem.Syntax Sem.Validator Sem.Sem Sem.Perm Sem.MemberPerm.
 From Coq Require Import Permutation.
 Open Scope Z_scope.
 
@@ -20,3 +20,27 @@ Example C10_duplicate_key_rejected :
   vt 40 false [] (TMap (GEnt (Some (TLit (LText [97%N]))) true (TRef 1003%N)))
      (VMap [(VText [97%N], VInt 1); (VText [97%N], VInt 2)]) = Some false.
 Proof. vm_compute. reflexivity. Qed.
+
+(* schema side (Sem/MemberPerm.v): exchanging two neighbouring members of a member list whose key sets are
+   pairwise disjoint (no data item is a key of two members: keys_disjoint) changes neither verdict; every
+   permutation of the members is a product of such exchanges.  swap2 n exchanges positions n and n+1. *)
+Theorem C10_member_swap : forall jm e n es ps, (S n < length es)%nat -> keys_disjoint jm e es ->
+  (AltsOk jm e [es] ps <-> AltsOk jm e [swap2 n es] ps) /\ (AltsFail jm e [es] ps <-> AltsFail jm e [swap2 n es] ps).
+Proof. exact member_swap. Qed.
+
+(* the assignment-level statement it rests on: with at most one matching member per pair (disjoint_col) an
+   accepting assignment exists for the members in one order iff one exists in the other *)
+Theorem C10_assignment_swap : forall n es cols, (S n < length es)%nat -> good_cols es cols ->
+  ((exists a, valid_assign es cols a = true) <-> (exists a, valid_assign (swap2 n es) (map (swap2 n) cols) a = true)).
+Proof. exact assignment_exists_swap. Qed.
+
+(* non-vacuity: a literal-keyed member with a cut and a table over unsigned keys, in both orders *)
+Example C10_member_swap_example :
+  let ea := {| e_lo := 1; e_hi := Some 1%N; e_key := TLit (LText [97%N]); e_cut := true; e_val := TRef 1003%N |} in
+  let eb := {| e_lo := 0; e_hi := None; e_key := TRef 1001%N; e_cut := false; e_val := TRef 1006%N |} in
+  swap2 0 [ea; eb] = [eb; ea] /\
+  vt 30 false [] (TMap (GSeq (GEnt (Some (TLit (LText [97%N]))) true (TRef 1003%N)) (GOcc 0 None (GEnt (Some (TRef 1001%N)) false (TRef 1006%N)))))
+     (VMap [(VInt 5, VText [120%N]); (VText [97%N], VInt 1)]) = Some true /\
+  vt 30 false [] (TMap (GSeq (GOcc 0 None (GEnt (Some (TRef 1001%N)) false (TRef 1006%N))) (GEnt (Some (TLit (LText [97%N]))) true (TRef 1003%N))))
+     (VMap [(VInt 5, VText [120%N]); (VText [97%N], VInt 1)]) = Some true.
+Proof. vm_compute. repeat split; reflexivity. Qed.
